@@ -986,3 +986,180 @@ def gen_fixint(src, attempt):
                 "Definition fixint_modules : list (list N * list N) := [%s]." % ('; '.join(rows), '; '.join(coq_str(t) for t in tys), '; '.join(mods)))
     attempt(out, 'fixint.rs', go, 'fixint_wrappers')
     return '\n'.join(out) + '\n'
+
+
+# ----------------------------------------------------------------------------------------
+# GenDynArms.v: the scalar arms of postcard-dyn's ser_named_type
+
+def dyn_ser_arm(kind, body, what):
+    stmts = split_stmts(body)
+    i = 0
+    m = re.match(r'^letval=value\.(as_\w+)\(\)\.right\(\)\?$', stmts[i])
+    if not m:
+        raise Untranslatable("%s: first statement `%s`" % (what, stmts[i]))
+    acc = m.group(1)
+    i += 1
+    conv = "CNone"
+    narrow = False
+    if i < len(stmts):
+        m = re.match(r'^letval=(\w+)::try_from\(val\)\?$', stmts[i])
+        if m:
+            conv = "(CTryFrom %s)" % coq_str(m.group(1))
+            i += 1
+        else:
+            m = re.match(r'^letval=(\w+)::from\(val\)$', stmts[i])
+            if m:
+                conv = "(CFrom %s)" % coq_str(m.group(1))
+                i += 1
+            elif stmts[i] == 'letval=valasf32':
+                narrow = True
+                i += 1
+                if i < len(stmts) and stmts[i].startswith('if!val.is_finite(){returnErr(Error::SchemaMismatch);}'):
+                    stmts[i] = stmts[i][len('if!val.is_finite(){returnErr(Error::SchemaMismatch);}'):]
+                    if not stmts[i]:
+                        i += 1
+                    conv = "CNarrowFinite"
+                else:
+                    conv = "CNarrow"
+    zz = "None"
+    if i < len(stmts):
+        m = re.match(r'^letval=zig_zag_i(\d+)\(val\)$', stmts[i])
+        if m:
+            zz = "(Some %s)" % m.group(1)
+            i += 1
+    rest = stmts[i:]
+    if rest == ['out.push(ifval{0x01}else{0x00})']:
+        emit = "EPushBool"
+    elif rest == ['out.push(valasu8)']:
+        emit = "EPushAsU8"
+    elif rest == ['out.push(val)']:
+        emit = "EPush"
+    elif len(rest) == 3:
+        m1 = re.match(r'^letmutbuf=\[0u8;varint_max::<(\w+)>\(\)\]$', rest[0])
+        m2 = re.match(r'^letused=varint_(\w+)\(val,&mutbuf\)$', rest[1])
+        if not (m1 and m2 and rest[2] == 'out.extend_from_slice(used)'):
+            raise Untranslatable("%s: emission `%s`" % (what, ';'.join(rest)))
+        emit = "(EVarint %s %s)" % (coq_str(m1.group(1)), coq_str(m2.group(1)))
+    elif rest == ['letval=val.to_le_bytes()', 'out.extend_from_slice(&val)']:
+        emit = "ELeBytes"
+    else:
+        raise Untranslatable("%s: emission `%s`" % (what, ';'.join(rest)[:120]))
+    return "(%s, DA %s %s %s %s)" % (coq_str(kind), coq_str(acc), conv, zz, emit)
+
+
+def dyn_de_arm(kind, body, what):
+    stmts = split_stmts(body)
+    if not stmts or stmts[-1] != 'Ok((val,rest))':
+        raise Untranslatable("%s: last statement `%s`" % (what, stmts[-1] if stmts else ''))
+    stmts = stmts[:-1]
+    i = 0
+    cur = None
+    if stmts[0] == 'let(one,rest)=data.take_one()?':
+        take = "TOne"
+        cur = 'one'
+    else:
+        m = re.match(r'^let\(val,rest\)=try_take_varint_(\w+)\(data\)\?$', stmts[0])
+        if m:
+            take = "(TVarint %s)" % coq_str(m.group(1))
+            cur = 'val'
+        else:
+            m = re.match(r'^let\(val,rest\)=data\.take_n\((\d+)\)\?$', stmts[0])
+            if not m:
+                raise Untranslatable("%s: first statement `%s`" % (what, stmts[0]))
+            take = "(TTakeN %s)" % m.group(1)
+            cur = 'val'
+    i = 1
+    steps = []
+    final = None
+    while i < len(stmts):
+        st = stmts[i]
+        if cur == 'one' and st == 'letval=matchone{0=>Value::Bool(false),1=>Value::Bool(true),_=>returnErr(Error::SchemaMismatch),}':
+            steps.append("KMatchBool")
+            final = "FVal"
+            i += 1
+            break
+        if cur == 'one' and st == 'letval=Value::Number(Number::from(oneasi8))':
+            steps.append("KAsI8")
+            final = "FNumber"
+            i += 1
+            break
+        if st == 'letval=Value::Number(Number::from(%s))' % cur:
+            final = "FNumber"
+            i += 1
+            break
+        m = re.match(r'^letval=de_zig_zag_i(\d+)\(val\)$', st)
+        if m and cur == 'val':
+            steps.append("(KZigZag %s)" % m.group(1))
+            i += 1
+            continue
+        m = re.match(r'^letval=(\w+)::try_from\(val\)\.map_err\(\|_\|Error::(\w+)\)\?$', st)
+        if m and cur == 'val':
+            steps.append("(KTryFrom %s %s)" % (coq_str(m.group(1)), coq_str(m.group(2))))
+            i += 1
+            continue
+        m = re.match(r'^letmutbuf=\[0u8;(\d+)\]$', st)
+        if m and cur == 'val' and i + 2 < len(stmts) and stmts[i + 1] == 'buf.copy_from_slice(val)':
+            m2 = re.match(r'^letf=(f32|f64)::from_le_bytes\(buf\)$', stmts[i + 2])
+            if not m2:
+                raise Untranslatable("%s: statement `%s`" % (what, stmts[i + 2]))
+            steps.append("(KFromLe %s %s)" % (m.group(1), coq_str(m2.group(1))))
+            cur = 'f'
+            i += 3
+            continue
+        if cur == 'f' and st == 'letval=Value::Number(Number::from_f64(f.into()).right()?)':
+            final = "(FFromF64 true)"
+            i += 1
+            break
+        if cur == 'f' and st == 'letval=Value::Number(Number::from_f64(f).right()?)':
+            final = "(FFromF64 false)"
+            i += 1
+            break
+        raise Untranslatable("%s: statement `%s`" % (what, st[:120]))
+    if final is None or i != len(stmts):
+        raise Untranslatable("%s: statements after the value is built: `%s`" % (what, ';'.join(stmts[i:])[:120]))
+    return "(%s, DDA %s [%s] %s)" % (coq_str(kind), take, '; '.join(steps), final)
+
+
+DYN_SCALARS = ['Bool', 'I8', 'U8', 'I16', 'I32', 'I64', 'I128', 'U16', 'U32', 'U64', 'U128', 'Usize', 'F32', 'F64']
+
+
+def gen_dyn_arms(src, attempt):
+    out = ["(* GENERATED by tools/translate.py from the Rust sources. Do not edit. *)",
+           "From PV Require Import Base DynArmDecl.", "Open Scope N_scope.", "",
+           "(* source/postcard-dyn/src/ser.rs: the scalar arms of ser_named_type *)"]
+    text = src('source/postcard-dyn/src/ser.rs')
+
+    def go():
+        sig, body = find_fn(text, 'ser_named_type')
+        mbody = block_after(body, r'\bmatch\s+ty\s*')
+        rows = []
+        arms = {}
+        for arm in split_arms(mbody):
+            m = re.match(r'^OwnedDataModelType::(\w+)\s*=>\s*\{(.*)\}$', arm.strip(), re.S)
+            if m:
+                arms[m.group(1)] = m.group(2)
+        for k in DYN_SCALARS:
+            if k not in arms:
+                raise Untranslatable("dyn ser.rs: no arm for %s" % k)
+            rows.append(dyn_ser_arm(k, arms[k], 'dyn ser.rs:' + k))
+        return "Definition dyn_ser_scalar_arms : list (list N * dser_arm) :=\n  [%s]." % ';\n   '.join(rows)
+    attempt(out, 'postcard-dyn/ser.rs:scalar arms', go, 'dyn_ser_scalar_arms')
+    out += ["", "(* source/postcard-dyn/src/de.rs: the scalar arms of deserialize *)"]
+    dtext = src('source/postcard-dyn/src/de.rs')
+
+    def god():
+        sig, body = find_fn(dtext, 'deserialize')
+        mbody = block_after(body, r'\bmatch\s+ty\s*')
+        rows = []
+        arms = {}
+        for arm in split_arms(mbody):
+            m = re.match(r'^OwnedDataModelType::(\w+)\s*=>\s*\{(.*)\}$', arm.strip(), re.S)
+            if m:
+                arms[m.group(1)] = m.group(2)
+        for k in DYN_SCALARS:
+            if k not in arms:
+                raise Untranslatable("dyn de.rs: no arm for %s" % k)
+            rows.append(dyn_de_arm(k, arms[k], 'dyn de.rs:' + k))
+        return "Definition dyn_de_scalar_arms : list (list N * dde_arm) :=\n  [%s]." % ';\n   '.join(rows)
+    attempt(out, 'postcard-dyn/de.rs:scalar arms', god, 'dyn_de_scalar_arms')
+    return '\n'.join(out) + '\n'
